@@ -60,6 +60,25 @@ Definition chk (c : case) : list N :=
                            | [] => false end
                | ObsOther, _ => false
                | _, _ => true end) 10 ++
+      (* the effect: the annotations after the command say what the command means, in the controllers' own reading of them
+         (pause: paused and not unpaused - an earlier canary-unpaused=true would make the replica-set controller lift the
+         pause; unpause: the reverse; validate: names the canary replica set; rolling-update pause / freeze: true;
+         their reverse: not true) *)
+      code_if (match obs, oe with
+               | ObsPatched a' _, Some e =>
+                   match c with
+                   | CanaryPause => a3_true (an_canary_paused a') && negb (a3_true (an_canary_unpaused a'))
+                   | CanaryUnpause => negb (a3_true (an_canary_paused a')) && a3_true (an_canary_unpaused a')
+                   | CanaryValidate => match es_canary (e_status e) with
+                                       | Some cs => option_eqb N.eqb (an_canary_valid a') (Some (cs_rs cs))
+                                       | None => true end
+                   | RuPause => a3_true (an_rolling_paused a')
+                   | RuUnpause => negb (a3_true (an_rolling_paused a'))
+                   | Freeze => a3_true (an_frozen a')
+                   | Unfreeze => negb (a3_true (an_frozen a'))
+                   | CanaryFail => false
+                   end
+               | _, _ => true end) 12 ++
       (* preconditions: an active canary for the canary commands (plus a canary strategy for pause/unpause/fail);
          none for rolling-update pause and freeze *)
       code_if (match oe with
